@@ -1289,7 +1289,9 @@ class ComponentSpecification(experiment.model.interface.InternalRepresentationAt
         if not self._memoization_hash_fuzzy:
             self._memoization_hash_fuzzy = self._memoization_info_to_hash(self.memoization_info_fuzzy)
             # VV: This is to ensure that there're no conflicts between flow-generated and user-generated fuzzy hashes
-            if self.workflowAttributes.get('memoization', {}).get('embeddingFunction'):
+            # VV: There is no hash (None) while an input of the component is missing
+            if self._memoization_hash_fuzzy is not None \
+                    and self.workflowAttributes.get('memoization', {}).get('embeddingFunction'):
                 self._memoization_hash_fuzzy = '-'.join(('custom', self._memoization_hash_fuzzy))
         return self._memoization_hash_fuzzy
 
